@@ -242,3 +242,216 @@ Proof.
   - exact C01_builtin_call_no_panic_partial.
   - exact (C01_factorial_no_panic release).
 Qed.
+
+(* ==================================================================================================
+   THE COMPLETE BUILT-IN SET (EvalAll.v): `builtin_all o` has an arm for every row of the regenerated
+   table — the 54 transcribed ones of EvalFull.builtin_full plus sin cos tan asin acos atan log log10
+   exp (libm), trim uppercase lowercase (Unicode tables), format (dyn-fmt transcribed, numbers through
+   C20's format_display_number), print (the line handed to eprintln!), time_now (the clock), and
+   to_string / join on values containing functions — where every library function is a field of the
+   ORACLE record o.  The theorems hold for EVERY oracle.
+   ================================================================================================== *)
+Require Import Blots.EvalFull Blots.EvalAll Blots.DisplayNum Blots.proofs.AggPanics Blots.proofs.AllNoPanic.
+From Coq Require Import Floats.SpecFloat.
+
+(* ---- C01_builtin_call_no_panic_full, for the dispatcher that really has every arm: after the arity
+        check no arm panics.  Three named side conditions, each about something outside the
+        transcription, each NECESSARY in the model (examples below):
+          percentile  p is a genuine double, the list has <= 2^53 elements (AggPanics.args_ok; spec_float
+                      has non-canonical inhabitants that no f64 corresponds to);
+          format      displaying the numbers among the arguments does not overflow the i32 / i64
+                      arithmetic of format_display_number (true of every genuine double under the real
+                      log10: C01_format_condition_holds_for_doubles);
+          time_now    the system clock is not before 1970 (duration_since(UNIX_EPOCH).unwrap()). ---- *)
+Theorem C01_builtin_call_no_panic_all : forall o cb b args st,
+  cb_safe cb -> can_accept (builtin_arity b) (Datatypes.length args) = true ->
+  (b = B_percentile -> args_ok args) ->
+  (b = B_format -> format_display_safe o args) ->
+  (b = B_time_now -> o_now o <> None) ->
+  fst (builtin_all o cb b args st) <> Panic.
+Proof. exact builtin_all_no_panic. Qed.
+Check C01_builtin_call_no_panic_all : forall o cb b args st,
+  cb_safe cb -> can_accept (builtin_arity b) (Datatypes.length args) = true ->
+  (b = B_percentile -> args_ok args) ->
+  (b = B_format -> format_display_safe o args) ->
+  (b = B_time_now -> o_now o <> None) ->
+  fst (builtin_all o cb b args st) <> Panic.
+Print Assumptions C01_builtin_call_no_panic_all.
+
+(* the same with percentile's arm as the hypothesis: no axiom at all (the args_ok form above inherits the
+   standard library's real-number axioms from C15's bound on percentile's rounded index) *)
+Theorem C01_builtin_call_no_panic_all_axiom_free : forall o cb b args st,
+  cb_safe cb -> can_accept (builtin_arity b) (Datatypes.length args) = true ->
+  (b = B_percentile -> BuiltinsAgg.bi_percentile args <> Panic) ->
+  (b = B_format -> format_display_safe o args) ->
+  (b = B_time_now -> o_now o <> None) ->
+  fst (builtin_all o cb b args st) <> Panic.
+Proof. exact builtin_all_no_panic_gen. Qed.
+Check C01_builtin_call_no_panic_all_axiom_free : forall o cb b args st,
+  cb_safe cb -> can_accept (builtin_arity b) (Datatypes.length args) = true ->
+  (b = B_percentile -> BuiltinsAgg.bi_percentile args <> Panic) ->
+  (b = B_format -> format_display_safe o args) ->
+  (b = B_time_now -> o_now o <> None) ->
+  fst (builtin_all o cb b args st) <> Panic.
+Print Assumptions C01_builtin_call_no_panic_all_axiom_free.
+
+(* the same for the 54 transcribed built-ins alone (EvalFull.builtin_full): only percentile's condition *)
+Theorem C01_builtin_full_no_panic : forall cb b args st,
+  cb_safe cb -> can_accept (builtin_arity b) (Datatypes.length args) = true ->
+  (b = B_percentile -> args_ok args) ->
+  fst (builtin_full cb b args st) <> Panic.
+Proof. exact builtin_full_no_panic. Qed.
+Check C01_builtin_full_no_panic : forall cb b args st,
+  cb_safe cb -> can_accept (builtin_arity b) (Datatypes.length args) = true ->
+  (b = B_percentile -> args_ok args) ->
+  fst (builtin_full cb b args st) <> Panic.
+Print Assumptions C01_builtin_full_no_panic.
+
+(* the format condition for genuine doubles: every number among the arguments is a valid binary64 and
+   floor(log10 a) as i32 stays within +-2000 (the real function's range on doubles is [-324, 308]) *)
+Theorem C01_format_condition_holds_for_doubles : forall o args,
+  (forall a, (Z.abs (as_i32 (nfloor (o_log10 o a))) <= 2000)%Z) ->
+  Forall (fun v => Forall (fun x => valid_binary prec emax x = true) (nums_in v)) (skipn 1 args) ->
+  format_display_safe o args.
+Proof. exact display_safe_of_valid. Qed.
+Check C01_format_condition_holds_for_doubles : forall o args,
+  (forall a, (Z.abs (as_i32 (nfloor (o_log10 o a))) <= 2000)%Z) ->
+  Forall (fun v => Forall (fun x => valid_binary prec emax x = true) (nums_in v)) (skipn 1 args) ->
+  format_display_safe o args.
+Print Assumptions C01_format_condition_holds_for_doubles.
+
+(* dyn-fmt's state machine (the engine of format and print) never reaches its
+   `unsafe { unreachable_unchecked() }` arm, for every format string and argument list *)
+Theorem C01_dyn_fmt_no_panic : forall fmt args, dyn_format fmt args <> Panic.
+Proof. exact dyn_format_np. Qed.
+Check C01_dyn_fmt_no_panic : forall fmt args, dyn_format fmt args <> Panic.
+Print Assumptions C01_dyn_fmt_no_panic.
+
+(* `^` through the oracle's powf: the operator table with every operator modelled never panics *)
+Theorem C01_operators_no_panic_all : forall o cb op l r st,
+  cb_safe cb -> fst (binop_all o cb op l r st) <> Panic.
+Proof. exact binop_all_no_panic. Qed.
+Check C01_operators_no_panic_all : forall o cb op l r st,
+  cb_safe cb -> fst (binop_all o cb op l r st) <> Panic.
+Print Assumptions C01_operators_no_panic_all.
+
+(* the Panic arms are live code of the model / the side conditions are needed *)
+Example C01_time_now_panics_before_the_epoch : forall o cb st,
+  o_now o = None -> fst (builtin_all o cb B_time_now [] st) = Panic.
+Proof. exact time_now_needs_its_clock. Qed.
+Example C01_dyn_fmt_unreachable_arm_is_modelled : dyn_go DArg EmptyString [] = Panic.
+Proof. reflexivity. Qed.
+Example C01_format_slice_panics_without_arity_check : forall o, bi_format o [] = Panic.
+Proof. reflexivity. Qed.
+
+(* ---- NO EVALUATION IS UNMODELLED ANY MORE.  EvalInst.builtin_impl answers Unmodelled for 50 built-ins,
+        EvalFull.builtin_full for 15 (and for to_string / join of values containing functions),
+        binop_impl for `^`; over the complete dispatcher, for every oracle, no built-in arm and no
+        operator does unless its callback does, and therefore (the evaluator induction of NoPanic.v
+        replayed for this outcome, proofs/AllNoUnmEval.v) no evaluation, no call and no program. ---- *)
+Require Import Blots.proofs.AllNoUnmEval Blots.proofs.AllNoUnm.
+Theorem C01_builtin_call_never_unmodelled_all : forall o cb b args st,
+  (forall this f a s, fst (cb this f a s) <> Unmodelled) ->
+  can_accept (builtin_arity b) (Datatypes.length args) = true ->
+  fst (builtin_all o cb b args st) <> Unmodelled.
+Proof. exact builtin_all_no_unm. Qed.
+Check C01_builtin_call_never_unmodelled_all : forall o cb b args st,
+  (forall this f a s, fst (cb this f a s) <> Unmodelled) ->
+  can_accept (builtin_arity b) (Datatypes.length args) = true ->
+  fst (builtin_all o cb b args st) <> Unmodelled.
+Print Assumptions C01_builtin_call_never_unmodelled_all.
+
+Theorem C01_eval_never_unmodelled_all : forall o release d c e,
+  wf c -> fst (evalD release (binop_all o) (builtin_all o) d c e) <> Unmodelled.
+Proof. exact evalD_all_no_unm. Qed.
+Check C01_eval_never_unmodelled_all : forall o release d c e,
+  wf c -> fst (evalD release (binop_all o) (builtin_all o) d c e) <> Unmodelled.
+Print Assumptions C01_eval_never_unmodelled_all.
+
+Theorem C01_program_never_unmodelled_all : forall o release inputs prog,
+  Forall (fun rs => fst rs <> RFail Unmodelled)
+         (snd (run (eval_top release (binop_all o) (builtin_all o)) (init_session inputs) prog)).
+Proof. exact program_all_no_unm. Qed.
+Check C01_program_never_unmodelled_all : forall o release inputs prog,
+  Forall (fun rs => fst rs <> RFail Unmodelled)
+         (snd (run (eval_top release (binop_all o) (builtin_all o)) (init_session inputs) prog)).
+Print Assumptions C01_program_never_unmodelled_all.
+
+(* the smaller dispatchers DO answer Unmodelled (so the statement is about the new arms) *)
+Example C01_full_dispatcher_is_unmodelled_on_sin : forall cb st,
+  fst (builtin_full cb B_sin [VNum nzero] st) = Unmodelled.
+Proof. reflexivity. Qed.
+Example C01_power_was_unmodelled : forall cb l r st, fst (binop_impl cb Power l r st) = Unmodelled.
+Proof. reflexivity. Qed.
+
+(* ---- FunctionDef::call over the complete dispatcher never answers Unmodelled either ---- *)
+Theorem C01_call_never_unmodelled_all : forall o release d fr this f args st,
+  fst (AD release (binop_all o) (builtin_all o) d fr this f args st) <> Unmodelled.
+Proof. exact AD_all_no_unm. Qed.
+Check C01_call_never_unmodelled_all : forall o release d fr this f args st,
+  fst (AD release (binop_all o) (builtin_all o) d fr this f args st) <> Unmodelled.
+Print Assumptions C01_call_never_unmodelled_all.
+
+(* ---- the complete dispatcher is a CONSERVATIVE EXTENSION of the transcribed ones: wherever builtin_full
+        answers anything but Unmodelled, builtin_all o answers the same (for every oracle: the text of a value
+        without functions does not depend on how functions are printed); wherever binop_impl is modelled
+        (every operator but `^`), binop_all o is binop_impl.  So the correspondence runs and theorems about
+        builtin_full on modelled programs are also about builtin_all. ---- *)
+Require Import Blots.proofs.AllExtends.
+Theorem C01_all_extends_full : forall o cb b args st,
+  fst (builtin_full cb b args st) <> Unmodelled ->
+  builtin_all o cb b args st = builtin_full cb b args st.
+Proof. exact builtin_all_extends_full. Qed.
+Check C01_all_extends_full : forall o cb b args st,
+  fst (builtin_full cb b args st) <> Unmodelled ->
+  builtin_all o cb b args st = builtin_full cb b args st.
+Print Assumptions C01_all_extends_full.
+
+Theorem C01_operators_all_extend_impl : forall o cb op l r st,
+  op <> Power -> binop_all o cb op l r st = binop_impl cb op l r st.
+Proof. exact binop_all_extends_impl. Qed.
+Check C01_operators_all_extend_impl : forall o cb op l r st,
+  op <> Power -> binop_all o cb op l r st = binop_impl cb op l r st.
+Print Assumptions C01_operators_all_extend_impl.
+
+(* ---- C01_builtin_call_no_panic_full AS WRITTEN (over EvalInst.builtin_impl) is refuted by the model:
+        builtin_impl answers Unmodelled for 50 of the 69 built-ins.  Its content is
+        C01_builtin_call_no_panic_all + C01_builtin_call_never_unmodelled_all above. ---- *)
+Lemma C01_builtin_call_no_panic_full_refuted : ~ C01_builtin_call_no_panic_full.
+Proof.
+  intros H.
+  destruct (H (fun _ _ _ st => (Err, st)) B_sin [VNum nzero] [] ltac:(intros ? ? ? ?; discriminate) eq_refl) as [_ Hu].
+  apply Hu. reflexivity.
+Qed.
+
+(* ---- dyn-fmt, the engine of format and print, is total (stronger than "never Panic") and copies text
+        without braces; the placeholder / escape laws and the crate's own test cases are in
+        proofs/AllFormatLaws.v ---- *)
+Require Import Blots.proofs.AllFormatLaws.
+Theorem C01_dyn_fmt_total : forall fmt args, exists t, dyn_format fmt args = Ok t.
+Proof. exact dyn_format_total. Qed.
+Check C01_dyn_fmt_total : forall fmt args, exists t, dyn_format fmt args = Ok t.
+Print Assumptions C01_dyn_fmt_total.
+Theorem C01_dyn_fmt_plain_text : forall fmt args, all_chars no_brace fmt = true -> dyn_format fmt args = Ok fmt.
+Proof. exact dyn_format_plain. Qed.
+Check C01_dyn_fmt_plain_text : forall fmt args, all_chars no_brace fmt = true -> dyn_format fmt args = Ok fmt.
+Print Assumptions C01_dyn_fmt_plain_text.
+
+(* ---- the complete model RUNS: a program through format (with a number, an oracle string and a function among
+        the arguments), print over time_now, `^`, and to_string of a list holding a function — none of which
+        the smaller dispatchers could evaluate — under a concrete oracle (identity functions, clock at 1 s) ---- *)
+Definition ex_all_call (b : builtin) (args : list expr) : expr := ECall (EBuiltin b) args.
+Definition ex_all_prog : list stmt :=
+  [SExpr (ex_all_call B_format [EStr "{}|{}|{}"; ex_all_call B_sin [ENum (num_of_Z 2)];
+                                ex_all_call B_uppercase [EStr "ab"]; ELam [AReq "x"] (EId "x")]);
+   SExpr (ex_all_call B_print [EStr "t={}"; ex_all_call B_time_now []]);
+   SExpr (EBin Power (ENum (num_of_Z 3)) (ENum (num_of_Z 4)));
+   SExpr (ex_all_call B_to_string [EList [Cm [] (ELam [AReq "x"] (EId "x")) None]])].
+Example C01_complete_model_runs :
+  run_program_all oracle_trivial [] ex_all_prog
+  = "OK:S327c61627c3c66756e6374696f6e3e;|OK:U|OK:N4008000000000000|OK:S5b3c66756e6374696f6e3e5d;;ENV:".
+Proof. vm_compute. reflexivity. Qed.
+(* ... and what the print call of that program writes to stderr *)
+Example C01_print_line_example :
+  print_line oracle_trivial [VStr "t={}"; VNum (num_of_Z 1)] = Ok "t=1".
+Proof. vm_compute. reflexivity. Qed.
